@@ -16,7 +16,8 @@ RULE = ('Hypothesis-generated frame values of each of the 14 types (stream ids 0
         'RSocket 1.0 frame layouts (serialize == reference bytes), round trip (parse_or_ignore(reference bytes) has the '
         'same fields), canonical (serialize(parse(b)) == b), partial write through the real TransportTCP.send_frame '
         '(one frame into a copying writer, and sequences of 2-6 frames into a writer that keeps the objects it was '
-        'handed, as asyncio does when the socket is not writable, read back after the last frame) '
+        'handed, as asyncio does when the socket is not writable, read back after the last frame; a frame object written '
+        'again after its payload grew, and an object decoded from non-canonical bytes forwarded as it is) '
         'against a recording writer (concatenated writes == 3-byte length + bytes), serialize_with_frame_size_header, '
         'all on both codec backends (cbitstruct and native struct, the second imported with cbitstruct masked) with '
         'identical results; plus exhaustive comparison of the two header parsers over 64 type codes x 1024 flag '
@@ -83,6 +84,46 @@ def check_value(v, vs_list=None):
             if not is_repo:
                 raise
             out.append(viol('partial_write_raised', 'C02:partial_write_raised:%s' % v['type'], type=v['type'],
+                            backend=var.name, exc=repr(e)))
+        # the same frame object written again after its payload changed size, and a decoded object forwarded: the length
+        # prefix is that of what is written now (compared with the object's own one-shot encoding)
+        try:
+            T = var.mod('rsocket.transports.tcp')
+
+            def written_by(obj):
+                w2 = RecWriter()
+                common.drive(T.TransportTCP(None, w2).send_frame(obj))
+                return b''.join(w2.chunks)
+
+            fr2 = frames.to_repo(var, v)
+            written_by(fr2)
+            if isinstance(getattr(fr2, 'data', None), (bytes, bytearray)) and v['type'] not in ('RESUME', 'RESUME_OK'):
+                fr2.data = bytes(fr2.data) + b'grown' * 9
+                again = written_by(fr2)
+                body = fr2.serialize()
+                if again != refcodec.frame_with_length(body):
+                    out.append(viol('partial_write_differs', 'C02:partial_write:reused_object:%s' % v['type'], type=v['type'],
+                                    backend=var.name, got=again[:16].hex(), want=refcodec.frame_with_length(body)[:16].hex()))
+            if nv.get('metadata') is None and v['type'] in ('PAYLOAD', 'REQUEST_RESPONSE', 'REQUEST_FNF', 'REQUEST_STREAM',
+                                                           'REQUEST_CHANNEL'):
+                # non-canonical input: METADATA flag with a zero-length metadata block (the encoder drops both)
+                nc = bytearray(ref)
+                nc[4] |= 0x01
+                hdr = 10 if v['type'] in ('REQUEST_STREAM', 'REQUEST_CHANNEL') else 6
+                nc[hdr:hdr] = b'\x00\x00\x00'
+                obj = F.parse_or_ignore(bytes(nc))
+                if obj is not None:
+                    fwd = written_by(obj)
+                    body = obj.serialize()
+                    if fwd != refcodec.frame_with_length(body):
+                        out.append(viol('partial_write_differs', 'C02:partial_write:forwarded_object:%s' % v['type'],
+                                        type=v['type'], backend=var.name, got=fwd[:16].hex(),
+                                        want=refcodec.frame_with_length(body)[:16].hex()))
+        except Exception as e:
+            is_repo, sig = common.repo_exception_sig(e)
+            if not is_repo:
+                raise
+            out.append(viol('partial_write_raised', 'C02:partial_write_raised:reuse:%s' % v['type'], type=v['type'],
                             backend=var.name, exc=repr(e)))
         # decode the reference bytes
         try:
